@@ -50,6 +50,12 @@ structure WState where
   afterDeadOp : Bool := false  -- between a mutating storage access through a dead handle and the next mutating op
   -- stand-alone C01 check: every handle returned by a creation of this case, pairwise distinct
   c01Seen : Std.HashSet (Nat × Int) := {}
+  /-- `lazy_flag` actions queued / expected to have run (every top-level `maintain` that returns (`=> acts …`) has run the whole queue) -/
+  flagQ : Nat := 0
+  flagRan : Nat := 0
+  /-- stand-alone purge monitor (C05): indices of the entity join printed by the current probe group -/
+  c05Alive : Option (List Nat) := none
+  c05Dead : Bool := false
   c01Dead : Bool := false
   -- statistics
   cases : Nat := 0
@@ -177,7 +183,7 @@ def worldLine (st : WState) (line : String) : WState × List String :=
   | ["case", id] =>
     let (st, outs) := st.closeCase
     ({ st with caseHash := 7, caseNontrivial := false, caseId := id, lineNo := 0, model := {},
-               diverged := false, pending := [], mon := {}, monDead := false, lgHeld := [], lgDeferred := [], lgDead := false, evMember := {}, evMask := {}, evOff := [], evDead := false, afterPurge := false, afterDeadOp := false, c01Seen := {}, c01Dead := false, afterMaint := false, afterRjoin := false, pendingFault := none, leaked := st.leaked + st.mon.leaked, cases := st.cases + 1 }, outs)
+               diverged := false, pending := [], mon := {}, monDead := false, lgHeld := [], lgDeferred := [], lgDead := false, evMember := {}, evMask := {}, evOff := [], evDead := false, afterPurge := false, afterDeadOp := false, c01Seen := {}, c01Dead := false, c05Alive := none, c05Dead := false, flagQ := 0, flagRan := 0, afterMaint := false, afterRjoin := false, pendingFault := none, leaked := st.leaked + st.mon.leaked, cases := st.cases + 1 }, outs)
   | lt =>
     let (r, ledger) := splitLedger r0
     let st := { st with lineNo := st.lineNo + 1, lines := st.lines + 1,
@@ -188,7 +194,7 @@ def worldLine (st : WState) (line : String) : WState × List String :=
       | _ => (none, lt)
     -- `gget` / `ggetmut` / `gins` / `grem`: the same operations through the generic storage traits — same model ops
     let lt := match lt with
-      | h :: rest => if ["gget", "ggetmut", "gins", "grem"].contains h then (h.drop 1).toString :: rest else lt
+      | h :: rest => if ["gget", "ggetmut", "gins", "grem", "lget", "lgetmut"].contains h then (h.drop 1).toString :: rest else lt
       | [] => lt
     let l := " ".intercalate lt
     -- zero-sized component values are counted by the harness (they are indistinguishable): a mismatch reported with
@@ -228,6 +234,15 @@ def worldLine (st : WState) (line : String) : WState × List String :=
              ({ st with monDead := true, mons := st.mons + 1 },
               [s!"MON {why.take 3} case={st.caseId} line={st.lineNo} {why} op=[dump] impl=[{r}]"])
          (st, out1 ++ out2))
+    | ["lazy_flag"], _ => ({ st with flagQ := st.flagQ + 1, caseNontrivial := true }, [])
+    | ["lazy_flag_check"], rts =>
+      -- outside the model (the action has no effect on the world): a queued action runs in the first `maintain` that
+      -- gets as far as the lazy queue — not in one whose purge panicked, and not never
+      if st.diverged && st.monDead then (st, []) else
+      if rts == ["q", toString st.flagQ, "ran", toString st.flagRan] then (st, [])
+      else ({ st with mons := st.mons + 2 },
+            [s!"MON C19 case={st.caseId} line={st.lineNo} C19 lazily queued actions after a caught destructor panic inside maintain: expected q {st.flagQ} ran {st.flagRan} (a queued action runs in the first maintain that reaches the lazy queue) op=[lazy_flag_check] impl=[{r}]",
+             s!"MON C09 case={st.caseId} line={st.lineNo} C09 a queued action did not run exactly once in the next maintain that reached the lazy queue: expected q {st.flagQ} ran {st.flagRan} op=[lazy_flag_check] impl=[{r}]"])
     | ["lazy_panic"], _ =>
       -- a panicking lazy action ends the comparison of this case (outside the model; see the harness): every monitor off
       ({ st with diverged := true, monDead := true, lgDead := true, evDead := true, c01Dead := true, caseNontrivial := true }, [])
@@ -257,6 +272,7 @@ def worldLine (st : WState) (line : String) : WState × List String :=
       | some ires =>
         let kind := opKind l
         let faultNow := st.pendingFault
+        let st := if nestedTag.isNone && lt == ["maintain"] && (toks r).head? == some "acts" then { st with flagRan := st.flagQ } else st
         let st := { st with opKinds := st.opKinds.insert kind (st.opKinds.getD kind 0 + 1) }
         let st := noteCoverage st op ires
         let st := match ledger with
@@ -353,6 +369,9 @@ def worldLine (st : WState) (line : String) : WState × List String :=
                 (if tag == "C04" && st.afterDeadOp && !mutatingThroughDead && (match op with | .mask _ | .get .. | .has .. | .count _ | .isEmpty _ | .slice _ => true | _ => false) then
                   [s!"MON C03 case={st.caseId} line={st.lineNo} C03 an operation through a dead handle, although answered as absent, changed the storage ({why}) op=[{shown}] impl=[{r}]"]
                 else []) ++
+                (if tag == "C12" && st.afterDeadOp && !mutatingThroughDead && (match op with | .events _ => true | _ => false) then
+                  [s!"MON C03 case={st.caseId} line={st.lineNo} C03 an operation through a dead handle, although answered as absent, left a change event behind ({why}) op=[{shown}] impl=[{r}]"]
+                else []) ++
                 (if tag == "C03" && (match op with | .rjoin .. => true | _ => false) then
                   [s!"MON C13 case={st.caseId} line={st.lineNo} C13 a lookup of another entity through a restricted storage does not follow the storage rule (alive and member) ({why}) op=[{shown}] impl=[{r}]"]
                 else []) ++
@@ -448,7 +467,24 @@ def worldLine (st : WState) (line : String) : WState × List String :=
           | (_, some e) =>
             ({ st with c01Dead := true, mons := st.mons + 1 },
              [s!"MON C01 case={st.caseId} line={st.lineNo} C01 the handle {e.id}:{e.gen} was returned by an entity creation although an earlier creation of this world had returned it already op=[{l}] impl=[{r}]"])
-        (st, out1 ++ out2 ++ out3 ++ out4 ++ out5))
+        -- 6. stand-alone purge check (C05): a component can only belong to an entity that is not dead, so every index in a
+        --    storage mask is an index of the entity join reported by the same probe group (entities awaiting maintain included)
+        let st := if isProbe4 then st else { st with c05Alive := none }
+        let (st, out6) :=
+          if st.c05Dead || nestedTag.isSome then (st, []) else
+          match op, ires with
+          | .ent .ejoin, .e (.ents es) => ({ st with c05Alive := some (es.map (·.id)) }, [])
+          | .mask k, .ids ms =>
+            (match st.c05Alive with
+             | none => (st, [])
+             | some ids =>
+               match ms.find? (fun i => !ids.contains i) with
+               | none => (st, [])
+               | some i =>
+                 ({ st with c05Dead := true, mons := st.mons + 1 },
+                  [s!"MON C05 case={st.caseId} line={st.lineNo} C05 storage {k} holds a component at index {i}, which no entity alive or awaiting maintain occupies: a deletion took effect without removing it op=[{l}] impl=[{r}]"]))
+          | _, _ => (st, [])
+        (st, out1 ++ out2 ++ out3 ++ out4 ++ out5 ++ out6))
     (st', zstOut ++ outs')
 
 partial def worldLoop (h : IO.FS.Stream) (st : WState) : IO WState := do
